@@ -227,7 +227,8 @@ func init() {
 						}
 					}
 				}
-				closedBranch = exprText(ifs.Cond) + " -> " + strings.Join(calls, ";")
+				// (`x == true` and `x` are the same test)
+				closedBranch = strings.Replace(exprText(ifs.Cond), " == true", "", -1) + " -> " + strings.Join(calls, ";")
 				return false
 			}
 			return true
